@@ -38,3 +38,24 @@ pub fn c01_sign_then_verify(sk: &SecretKey, scheme: SignatureSchemes, msg: &[u8]
         Err(_) => {}
     }
 }
+
+/// ... and it still holds after the key has been carried through the library's byte encodings:
+/// the re-imported key is the same scalar, hence signs identically (determinism above)
+pub fn c01_key_through_byte_encodings(sk: &SecretKey)
+    requires sk.0.val() != 0,
+{
+    proof { lemma_reverse_reverse(scalar_le(sk.0)); lemma_all_zero_reverse(scalar_le(sk.0)); }
+    let be = sk.to_be_bytes();
+    let k1 = SecretKey::from_be_bytes(&be);
+    assert(k1.is_some_spec() && k1.value().0 == sk.0);
+    let le = sk.to_le_bytes();
+    let k2 = SecretKey::from_le_bytes(&le);
+    assert(k2.is_some_spec() && k2.value().0 == sk.0);
+    let v = Vec::from(sk);
+    let k3 = SecretKey::try_from(v.as_slice());
+    assert(k3 is Ok && k3->Ok_0.0 == sk.0);
+    // the public key's byte form is its compressed encoding (injective, A-ENC)
+    let pk = sk.public_key();
+    let pkb = Vec::from(&pk);
+    assert(pkb@ == pk_enc(pk.0));
+}
